@@ -1149,6 +1149,20 @@ type Path struct {
 	Blocks  []*ssa.BasicBlock
 	PhiBind map[*ssa.Phi]ssa.Value
 	Bind    map[ssa.Value]*Term // bindings in force when the path was emitted (parameters / results of unfolded callees)
+	Seq     []ssa.Instruction   // every instruction of the path in execution order, loads included (enumPathsInl only)
+	Src     map[ssa.Value]ssa.Value // unfolded callee parameter -> argument value, unfolded call -> returned value
+}
+
+// Origin follows parameter/argument and call/result links of unfolded callees back to the value that was computed.
+func (p *Path) Origin(v ssa.Value) ssa.Value {
+	for i := 0; i < 8; i++ {
+		n, ok := p.Src[v]
+		if !ok {
+			return v
+		}
+		v = n
+	}
+	return v
 }
 
 // enumPaths enumerates all acyclic paths from entry to a return/panic; back edges are not followed
@@ -1476,9 +1490,10 @@ func enumPathsInl(e *termEnv, fn *ssa.Function, limit int, inl func(*ssa.Functio
 	type ctx struct {
 		fn     *ssa.Function
 		onPath map[*ssa.BasicBlock]bool
-		kont   func(rets []*Term)
-		depth  int
-		parent *ctx
+		kont    func(rets []*Term)
+		depth   int
+		parent  *ctx
+		lastRet []ssa.Value
 	}
 	setBind := func(v ssa.Value, t *Term) func() {
 		old, had := e.bind[v]
@@ -1492,13 +1507,14 @@ func enumPathsInl(e *termEnv, fn *ssa.Function, limit int, inl func(*ssa.Functio
 		}
 	}
 	unfolded := map[*ssa.Call]bool{}
+	src := map[ssa.Value]ssa.Value{}
 	var walkFrom func(c *ctx, b, pred *ssa.BasicBlock, start int)
 	walkFrom = func(c *ctx, b, pred *ssa.BasicBlock, start int) {
 		if len(paths) >= limit {
 			complete = false
 			return
 		}
-		nInstr, nCond, nBlk := len(cur.Instrs), len(cur.Conds), len(cur.Blocks)
+		nInstr, nCond, nBlk, nSeq := len(cur.Instrs), len(cur.Conds), len(cur.Blocks), len(cur.Seq)
 		var undo []func()
 		if start == 0 {
 			if c.onPath[b] {
@@ -1510,12 +1526,13 @@ func enumPathsInl(e *termEnv, fn *ssa.Function, limit int, inl func(*ssa.Functio
 			cur.Blocks = append(cur.Blocks, b)
 		}
 		defer func() {
-			cur.Instrs, cur.Conds, cur.Blocks = cur.Instrs[:nInstr], cur.Conds[:nCond], cur.Blocks[:nBlk]
+			cur.Instrs, cur.Conds, cur.Blocks, cur.Seq = cur.Instrs[:nInstr], cur.Conds[:nCond], cur.Blocks[:nBlk], cur.Seq[:nSeq]
 			for i := len(undo) - 1; i >= 0; i-- {
 				undo[i]()
 			}
 		}()
 		for i := start; i < len(b.Instrs); i++ {
+			cur.Seq = append(cur.Seq, b.Instrs[i])
 			switch x := b.Instrs[i].(type) {
 			case *ssa.Phi:
 				for j, p := range b.Preds {
@@ -1547,6 +1564,9 @@ func enumPathsInl(e *termEnv, fn *ssa.Function, limit int, inl func(*ssa.Functio
 					for pi, p := range callee.Params {
 						if pi < len(x.Call.Args) {
 							unb = append(unb, setBind(p, e.termOf(x.Call.Args[pi])))
+							pp := p
+							src[pp] = x.Call.Args[pi]
+							unb = append(unb, func() { delete(src, pp) })
 						}
 					}
 					bb, ii := b, i
@@ -1562,7 +1582,11 @@ func enumPathsInl(e *termEnv, fn *ssa.Function, limit int, inl func(*ssa.Functio
 							rt = mk("tuple", "", rets...)
 						}
 						un := setBind(x, rt)
+						if len(nc.lastRet) == 1 {
+							src[x] = nc.lastRet[0]
+						}
 						walkFrom(c, bb, pred, ii+1)
+						delete(src, x)
 						un()
 					}
 					walkFrom(nc, callee.Blocks[0], nil, 0)
@@ -1579,11 +1603,15 @@ func enumPathsInl(e *termEnv, fn *ssa.Function, limit int, inl func(*ssa.Functio
 					for _, rv := range x.Results {
 						rets = append(rets, e.termOf(rv))
 					}
+					c.lastRet = x.Results
 					c.kont(rets)
 					return
 				}
 				cp := &Path{Conds: append([]Guard{}, cur.Conds...), Instrs: append([]ssa.Instruction{}, cur.Instrs...), Ret: x, Blocks: append([]*ssa.BasicBlock{}, cur.Blocks...),
-					PhiBind: map[*ssa.Phi]ssa.Value{}, Bind: map[ssa.Value]*Term{}}
+					PhiBind: map[*ssa.Phi]ssa.Value{}, Bind: map[ssa.Value]*Term{}, Seq: append([]ssa.Instruction{}, cur.Seq...), Src: map[ssa.Value]ssa.Value{}}
+				for k, v := range src {
+					cp.Src[k] = v
+				}
 				for k, v := range cur.PhiBind {
 					cp.PhiBind[k] = v
 				}
